@@ -27,17 +27,18 @@
 
 using pbt::Ctx; using pbt::Bytes;
 
-extern "C" { extern int iof_armed, iof_kind, iof_fault, iof_hit, iof_min_fd, iof_kind2, iof_fault2; extern long iof_k, iof_k2, iof_count[4]; }
+extern "C" { void iof_fsize_limit(long bytes); extern int iof_armed, iof_kind, iof_fault, iof_hit, iof_min_fd, iof_kind2, iof_fault2; extern long iof_k, iof_k2, iof_count[4]; }
 static const char *KIND[] = {"read", "write", "lseek", "ftruncate"};
 static const char *FAULT[] = {"EIO", "ENOSPC", "EINTR", "short(half)", "short(1 byte)", "short(0 bytes)"};
 
-struct Plan { int kind = -1; long k = 0; int fault = 0; int kind2 = -1; long k2 = 0; int fault2 = 0;
-    std::string str() const { if (kind < 0) return "no fault"; std::string s = std::string(KIND[kind]) + " #" + std::to_string(k) + " -> " + FAULT[fault]; if (kind2 >= 0) s += " and " + std::string(KIND[kind2]) + " #" + std::to_string(k2) + " -> " + FAULT[fault2]; return s; } };
-static void arm(const Plan &p) { for (auto &x : iof_count) x = 0; iof_hit = 0; iof_kind = p.kind; iof_k = p.k; iof_fault = p.fault; iof_kind2 = p.kind2; iof_k2 = p.k2; iof_fault2 = p.fault2; iof_armed = 1; }
-static void disarm() { iof_armed = 0; }
+struct Plan { int kind = -1; long k = 0; int fault = 0; int kind2 = -1; long k2 = 0; int fault2 = 0; long fsize = -1;      // fsize: file-size limit in force while the library runs (disk full / quota at that byte)
+    std::string str() const { if (fsize >= 0) return "no file may grow beyond " + std::to_string(fsize) + " bytes (EFBIG past that)"; if (kind < 0) return "no fault"; std::string s = std::string(KIND[kind]) + " #" + std::to_string(k) + " -> " + FAULT[fault]; if (kind2 >= 0) s += " and " + std::string(KIND[kind2]) + " #" + std::to_string(k2) + " -> " + FAULT[fault2]; return s; } };
+static bool g_limited = false;
+static void arm(const Plan &p) { for (auto &x : iof_count) x = 0; iof_hit = 0; iof_kind = p.kind; iof_k = p.k; iof_fault = p.fault; iof_kind2 = p.kind2; iof_k2 = p.k2; iof_fault2 = p.fault2; iof_armed = 1; if (p.fsize >= 0) { iof_fsize_limit(p.fsize); g_limited = true; } }
+static void disarm() { iof_armed = 0; if (g_limited) { iof_fsize_limit(-1); g_limited = false; } }
 
 // a scenario: run(plan) -> "" or violation text; counts of the fault-free run are left in iof_count
-struct Scenario { std::string name; std::function<std::string(const Plan &)> run; };
+struct Scenario { std::string name; std::function<std::string(const Plan &)> run; std::shared_ptr<std::vector<long>> limits = std::make_shared<std::vector<long>>(); };   // limits: file sizes worth cutting at, filled in by the fault-free run
 
 static std::vector<int> faults_for(int kind) { if (kind == 0) return {0, 2, 3, 4}; if (kind == 1) return {0, 1, 2, 3, 4, 5}; return {0}; }
 
@@ -46,7 +47,7 @@ static Scenario s_write(Ctx &c) {
     auto D = std::make_shared<Bytes>(gen::content(c, 90000).data); auto cfg = std::make_shared<lib::WCfg>(gen::wcfg(c, *D));
     if (cfg->level > 5) cfg->level = 3; if (cfg->chunk_max > 0 && cfg->chunk_max < 64) cfg->chunk_max = 64;
     auto ops = std::make_shared<std::vector<lib::WOp>>(gen::whistory(c, D->size(), cfg->manual)); if (ops->size() > 60) { ops->resize(60); }
-    Scenario s; s.name = "S1 write: D[" + std::to_string(D->size()) + "] cfg{" + cfg->str() + "}";
+    Scenario s; s.name = "S1 write: D[" + std::to_string(D->size()) + "] cfg{" + cfg->str() + "}"; auto lim = s.limits;
     s.run = [=](const Plan &p) -> std::string {
         int out = memfd_create("out", 0); zckCtx *z = zck_create(); bool good = true; std::string why;
         arm(p);
@@ -59,6 +60,7 @@ static Scenario s_write(Ctx &c) {
         disarm();
         std::string res;
         if (good) { Bytes f = lib::fd_bytes(out); ref::ParseResult pr = ref::parse(f); ref::Decoded d; if (pr.ok) d = ref::decode(f, pr.h);
+            if (p.kind < 0 && p.fsize < 0 && pr.ok) { long F = (long)f.size(), H = (long)pr.h.total_size, Bd = F - H; for (long v : {F - 1, F - 2, F - 10, F / 2, H, H + 1, H - 1, Bd, Bd + 1, Bd - 1, Bd / 2, 1L, 0L, H / 2, F - Bd / 3, 32768L, 32767L, H + 32768}) if (v >= 0 && v < F) lim->push_back(v); }
             if (!pr.ok || !d.ok) res = "zck_close reported success but the output is not a valid file (" + (pr.ok ? d.reason : pr.reason) + ", " + std::to_string(f.size()) + " bytes reached the descriptor)";
             else if (d.content != *D) res = "zck_close reported success but the output decodes to " + std::to_string(d.content.size()) + " bytes instead of the " + std::to_string(D->size()) + " written"; }
         zck_free(&z); close(out); return res;
@@ -110,7 +112,7 @@ static Scenario s_copy(Ctx &c) {
     gen::ZFileOpts o; o.max_chunks = 8; o.max_chunk = c.boolean() ? 300 : 40000; o.allow_empty = false; gen::ZParams q = gen::zparams(c, o); auto B = std::make_shared<gen::ZFile>(gen::zfile_build(c, q));
     gen::ZParams qa = q; qa.by_ref = false; if (!qa.chunks.empty() && c.boolean()) qa.chunks[c.pick(qa.chunks.size())] = gen::chunk_content(c, 300); auto A = std::make_shared<gen::ZFile>(gen::zfile_build(c, qa));
     auto T0 = std::make_shared<Bytes>(B->file.begin(), B->file.begin() + B->h.total_size);
-    Scenario s; s.name = "S4 copy_chunks: B{" + B->desc + "}";
+    Scenario s; s.name = "S4 copy_chunks: B{" + B->desc + "}"; { long F = (long)B->file.size(), H = (long)B->h.total_size; for (long v : {F - 1, F - 7, (F + H) / 2, H + 1, H + 32768, H + 40000}) if (v > H && v < F) s.limits->push_back(v); for (size_t i = 1; i < B->nchunks(); i += 2) if (B->clen(i) > 1) s.limits->push_back((long)(B->off(i) + B->clen(i) / 2)); }
     s.run = [=](const Plan &p) -> std::string {
         int tfd = lib::mkfd(*T0), sfd = lib::mkfd(A->file); zckCtx *tgt = zck_create(), *src = zck_create(); std::string res;
         if (zck_init_read(tgt, tfd) && zck_init_read(src, sfd)) { (void)!zck_find_valid_chunks(tgt); zck_reset_failed_chunks(tgt); arm(p); (void)!zck_copy_chunks(src, tgt); disarm(); res = valid_implies_bytes(tgt, tfd, *B); }
@@ -123,7 +125,7 @@ static Scenario s_download(Ctx &c) {
     auto T0 = std::make_shared<Bytes>(B->file); for (size_t i = 0; i < B->nchunks(); i++) if (B->clen(i) && c.chance(2, 3)) std::fill(T0->begin() + B->off(i), T0->begin() + B->off(i) + B->clen(i), 0);
     auto srv = std::make_shared<dl::Server>(); srv->file = B->file; srv->style = dl::gen_style(c, true); int limit = c.boolean() ? -1 : 2;
     uint64_t cs = c.draw(0xffff);
-    Scenario s; s.name = "S5 download callbacks: B{" + B->desc + "} limit=" + std::to_string(limit);
+    Scenario s; s.name = "S5 download callbacks: B{" + B->desc + "} limit=" + std::to_string(limit); { long F = (long)B->file.size(), H = (long)B->h.total_size; for (long v : {F - 1, (F + H) / 2, H + 1}) if (v > H && v < F) s.limits->push_back(v); for (size_t i = 1; i < B->nchunks(); i += 2) if (B->clen(i) > 1) s.limits->push_back((long)(B->off(i) + B->clen(i) / 2)); }
     s.run = [=](const Plan &p) -> std::string {
         int tfd = lib::mkfd(*T0); zckCtx *z = zck_create(); std::string res;
         if (zck_init_read(z, tfd)) {
@@ -144,7 +146,7 @@ static int run_tool_plan(const std::string &tool, const std::vector<std::string>
     if (pid == 0) {
         struct rlimit rl = {30, 32}; setrlimit(RLIMIT_CPU, &rl); struct itimerval it; memset(&it, 0, sizeof it); setitimer(ITIMER_PROF, &it, nullptr);
         if (chdir(cwd.c_str())) _exit(125);
-        char plan[64]; snprintf(plan, sizeof plan, "%d:%ld:%d", p.kind, p.k, p.fault); setenv("VERIF_FAULT", plan, 1); setenv("VERIF_FAULT_COUNTFILE", cf.c_str(), 1);
+        char plan[64]; snprintf(plan, sizeof plan, "%d:%ld:%d", p.kind, p.k, p.fault); setenv("VERIF_FAULT", plan, 1); setenv("VERIF_FAULT_COUNTFILE", cf.c_str(), 1); if (p.fsize >= 0) setenv("VERIF_FSIZE_LIMIT", std::to_string(p.fsize).c_str(), 1);
         int dn = open("/dev/null", O_RDWR); dup2(dn, 0); dup2(dn, 1); dup2(dn, 2);
         std::vector<char *> av; av.push_back((char *)tool.c_str()); for (auto &a : args) av.push_back((char *)a.c_str()); av.push_back(nullptr);
         execv(tool.c_str(), av.data()); _exit(126);
@@ -178,6 +180,11 @@ static void prop(Ctx &c) {
                 if (!fsig.empty()) break;
             }
         }
+        // file-size limits (syscall-independent: whatever call extends a file is cut at the limit, then fails)
+        if (c.gver >= 4) { std::vector<long> L = *s.limits; std::sort(L.begin(), L.end()); L.erase(std::unique(L.begin(), L.end()), L.end());
+            for (long v : L) { if (!fsig.empty()) break; Plan p; p.fsize = v; std::string e = s.run(p); evals++; reached++;
+                if (!e.empty()) { fsig = std::string("false-success:") + s.name.substr(0, 2) + ":size-limit"; fmsg = "fault plan {" + p.str() + "}: " + e; } }
+            if (!L.empty()) c.label("size-limit-faults"); }
         // sampled double faults
         for (int t = 0; t < (c.tier ? 200 : 40) && fsig.empty(); t++) {
             Plan p; p.kind = (int)c.draw(2); if (N[p.kind] == 0) continue; p.k = 1 + (long)c.draw(N[p.kind] - 1); auto fl = faults_for(p.kind); p.fault = fl[c.pick(fl.size())];
@@ -221,11 +228,18 @@ static void prop(Ctx &c) {
         size_t cap = c.tier ? 60 : 14;
         for (int kind = 0; kind < 3 && fsig.empty(); kind++) {
             std::vector<long> ks; if ((size_t)N[kind] <= cap) for (long k = 1; k <= N[kind]; k++) ks.push_back(k); else { for (size_t i = 0; i < cap; i++) ks.push_back(1 + (long)c.draw(N[kind] - 1)); std::sort(ks.begin(), ks.end()); ks.erase(std::unique(ks.begin(), ks.end()), ks.end()); }
-            for (long k : ks) { auto fl = faults_for(kind); int f = fl[(size_t)(k + kind) % fl.size()]; if (c.tier == 0 && kind == 1 && f == 5) f = 0;
+            bool all_faults = c.gver >= 4 && (size_t)N[kind] * 4 <= cap;          // few calls of this kind: every fault at every call
+            for (long k : ks) for (int fi = 0; fi < (all_faults ? (int)faults_for(kind).size() : 1) && fsig.empty(); fi++) { auto fl = faults_for(kind); int f = all_faults ? fl[fi] : fl[(size_t)(k + kind) % fl.size()]; if (!all_faults && c.tier == 0 && kind == 1 && f == 5) f = 0;
                 Plan p; p.kind = kind; p.k = k; p.fault = f; unlink((t.dir + "/" + t.outfile).c_str()); long n2[4]; int h2 = 0; int e2 = run_tool_plan(t.tool, t.args, t.dir, p, n2, &h2); evals++; if (h2) reached++;
                 if (e2 == 0) { std::string e = t.judge(slurp(t.dir + "/" + t.outfile)); if (!e.empty()) { fsig = std::string("false-success:S6:") + t.tool.substr(t.tool.rfind('/') + 1) + ":" + KIND[kind]; fmsg = t.name + ", fault plan {" + p.str() + "}: " + e; break; } }
             }
         }
+        // file-size limits on whatever the tool writes
+        if (c.gver >= 4 && fsig.empty()) { long F = (long)slurp(t.dir + "/" + t.outfile).size(); if (F == 0) { Plan none2; long n3[4]; int h3 = 0; unlink((t.dir + "/" + t.outfile).c_str()); run_tool_plan(t.tool, t.args, t.dir, none2, n3, &h3); F = (long)slurp(t.dir + "/" + t.outfile).size(); }
+            std::vector<long> L; for (long v : {F - 1, F - 9, F / 2, F / 3, 1L, 32768L, F - 32768}) if (v > 0 && v < F) L.push_back(v); std::sort(L.begin(), L.end()); L.erase(std::unique(L.begin(), L.end()), L.end());
+            for (long v : L) { Plan p; p.fsize = v; unlink((t.dir + "/" + t.outfile).c_str()); long n2[4]; int h2 = 0; int e2 = run_tool_plan(t.tool, t.args, t.dir, p, n2, &h2); evals++; reached++;
+                if (e2 == 0) { std::string e = t.judge(slurp(t.dir + "/" + t.outfile)); if (!e.empty()) { fsig = std::string("false-success:S6:") + t.tool.substr(t.tool.rfind('/') + 1) + ":size-limit"; fmsg = t.name + ", fault plan {" + p.str() + "}: " + e; break; } } }
+            if (!L.empty()) c.label("size-limit-faults"); }
         rc = system(rm.c_str());
     }
     c.desc << " fault-runs=" << evals << " (fault reached in " << reached << ")";
